@@ -180,6 +180,17 @@ func (e *Env) eval(x Expr) (TV, error) {
 		if err != nil {
 			return TV{}, err
 		}
+		if xv.T.Sort == SStr {
+			// substring s[lo:hi] (same term the translator builds for the Go expression)
+			hi := TV{T(SInt, "(slen %s)", xv.T.S), tInt}
+			if x.Hi != nil {
+				hi, err = e.eval(x.Hi)
+				if err != nil {
+					return TV{}, err
+				}
+			}
+			return TV{e.vc.strSub(xv.T, lo.T, hi.T), types.Typ[types.String]}, nil
+		}
 		if xv.T.Sort != SSlice {
 			return TV{}, fmt.Errorf("slice expression on non-slice %s", exprString(x.X))
 		}
@@ -740,6 +751,21 @@ func (e *Env) call(x *ECall) (TV, error) {
 			args = append(args, v.T.S)
 		}
 		return TV{T(SInt, "(i%s %s)", x.Fn, strings.Join(args, " ")), tInt}, nil
+	case "errvar":
+		// errvar(x): the error value x is the value of a package-level error
+		// variable (a sentinel); errors.New / fmt.Errorf results are not
+		if len(x.Args) != 1 {
+			return TV{}, fmt.Errorf("errvar takes one argument")
+		}
+		v, err := e.eval(x.Args[0])
+		if err != nil {
+			return TV{}, err
+		}
+		if v.T.Sort != SInt {
+			return TV{}, fmt.Errorf("errvar of non-interface value")
+		}
+		vc.declare("is_errvar", "(declare-fun is_errvar (Int) Bool)")
+		return TV{T(SBool, "(is_errvar %s)", v.T.S), tBool}, nil
 	case "deref":
 		// deref(p): the value a pointer to a scalar (non-struct, non-array)
 		// element points to, in the current state
